@@ -499,7 +499,7 @@ class Model:
         if src is None or kn in self.e:
             self.expect_ret(obs, -1, what)
             return
-        if src.kind != "plain" or src.len < 0 or self.aids_on(ko):
+        if src.kind != "plain" or src.len < 0 or self.aids_on(ko) or src.maybe_promoted:
             raise Invalid()
         self.expect_ret(obs, 0, what)
         ne = Elem("plain", src.len)
@@ -533,8 +533,17 @@ class Model:
     def op_reopen(self, op, obs, what):
         # emitted as: Hendaccess for every live slot (in slot order), Hclose, Hopen
         i = 0
+        emitted = getattr(self, "emitted_slots", None)
         for s in range(NSLOT):
-            if self.a[s] is not None:
+            if obs is not None and emitted is not None:
+                if s in emitted:
+                    if self.a[s] is not None:
+                        self.expect_ret(obs, 0, what + " (endaccess slot %d)" % s, i)
+                    i += 1      # else: slot never became live (tolerated refusal); result ignored
+                elif self.a[s] is not None:
+                    raise Invalid()
+                self.a[s] = None
+            elif self.a[s] is not None:
                 self.expect_ret(obs, 0, what + " (endaccess slot %d)" % s, i)
                 i += 1
                 self.a[s] = None
@@ -660,6 +669,7 @@ def emit(case, d):
     for op in case["ops"]:
         k = op[0]
         lines = []
+        extra = None
         if k == "sw":
             t, r = KEYS[op[2]]
             lines.append(p.call("i", "Hstartwrite", V("f"), t, r, op[3], bind="a%d" % op[1]))
@@ -702,7 +712,8 @@ def emit(case, d):
             lines.append(p.call("i", "HLconvert", V("a%d" % op[1]), op[2], op[3]))
         elif k == "hx":
             t, r = KEYS[op[2]]
-            lines.append(p.call("i", "HXcreate", V("f"), t, r, os.path.join(d, "ext%d_%d.dat" % (op[3], op[2])),
+            # one fresh external file per HXcreate: regions of different elements/sessions never overlap
+            lines.append(p.call("i", "HXcreate", V("f"), t, r, os.path.join(d, "ext%d_%d.dat" % (len(plan), op[2])),
                                 op[4], 0, bind="a%d" % op[1]))
         elif k == "dup":
             tn, rn = KEYS[op[1]]
@@ -716,6 +727,7 @@ def emit(case, d):
         elif k == "cache":
             lines.append(p.call("i", "Hcache", V("f"), op[1]))
         elif k == "reopen":
+            extra = [s for s in range(NSLOT) if shadow.a[s] is not None]
             for s in range(NSLOT):
                 if shadow.a[s] is not None:
                     lines.append(p.call("i", "Hendaccess", V("a%d" % s)))
@@ -725,7 +737,7 @@ def emit(case, d):
             shadow.step(op, None)
         except Invalid:
             return None, None, None
-        plan.append((op, lines))
+        plan.append((op, lines, extra))
     # epilogue: release everything, close, reopen read-only and read every element back
     fin = []
     for s in range(NSLOT):
@@ -756,8 +768,9 @@ def check(case, rr, plan, tail):
     if res(ln0).ret == -1:
         raise Fail("Hopen(create) failed")
     resync = set()
-    for op, lines in plan:
+    for op, lines, extra in plan:
         obs = [res(l) for l in lines]
+        m.emitted_slots = extra
         # after a tolerated failed read the position is undefined until the next absolute seek
         if op[0] in ("w", "r", "tell", "inq", "tr", "sk") and op[1] in resync:
             if op[0] == "sk" and op[3] == 0:
@@ -782,6 +795,8 @@ def check(case, rr, plan, tail):
     for role, k, ln in fin:
         r = res(ln)
         if role in ("end", "close"):
+            if role == "end" and m.a[k] is None:
+                continue    # slot never became live (a tolerated refusal): nothing to release
             if r.ret != 0:
                 raise Fail("final %s failed" % role)
         elif role == "open":
